@@ -384,10 +384,13 @@ def run_both(bdir, cases, tag, shards=None, timeout=3600, model=True, keys=None)
                 a = [x for x in a if not (x and x[0].startswith('@'))]   # impl-only observations (oracle input)
             if keys is not None:
                 # compare only the observables the property's theorems depend on
+                def keep(x):
+                    # 'start:w' selects the lines `start <i> w : ...` only
+                    return x and (x[0] in keys or x[0].endswith('-ERROR') or (len(x) > 2 and (x[0] + ':' + x[2]) in keys))
                 if a is not None:
-                    a = [x for x in a if x and (x[0] in keys or x[0].endswith('-ERROR'))]
+                    a = [x for x in a if keep(x)]
                 if b is not None:
-                    b = [x for x in b if x and (x[0] in keys or x[0].endswith('-ERROR'))]
+                    b = [x for x in b if keep(x)]
             if a is None and b is None:
                 continue
             if not model:
